@@ -16,7 +16,9 @@ Variable yl : str -> option val.
    4 = json-nonfinite-float             : a JSON format writes Infinity / -Infinity / NaN
    5 = unprintable-str                  : a str holds a character PyYAML's reader refuses or folds (see bad_char)
    6 = comments-reemit                  : yaml_comments / --print_config=comments: the text is re-emitted by ruyaml
-   7 = enum-member-null                 : an Enum member whose name is `null` *)
+   7 = enum-member-null                 : an Enum member whose name is `null`
+   8 = default-not-normalised           : the leaf holds its declared default, unvalidated, and that value is not what
+       the parser makes of its own serialisation (int default under Union[float,int], 'NULL' under Optional[str]) *)
 Definition skipdef_class (vr : variant) (lf : leaf) (w : val) : N :=
   if vr_skip_default vr then
     match cleanup yl true (vr_skip_none vr) (lf_ty lf) (lf_def lf) w,
@@ -39,10 +41,24 @@ Definition text_class (vr : variant) (lf : leaf) (w : val) : N :=
   | _ => 0%N
   end.
 
+(* the leaf value survives its own serialise / parse pair (computed form of leaf_stable) *)
+Definition leaf_stable_b (lf : leaf) (w : val) : bool :=
+  match w with
+  | VNone => true
+  | _ => match ser_leaf yl (lf_ty lf) (lf_def lf) w with
+         | Some j => match check_entry yl (lf_ty lf) (lf_def lf) j with
+                     | Some w' => veq w' w
+                     | None => false
+                     end
+         | None => false
+         end
+  end.
+
 Definition leaf_class (vr : variant) (lw : leaf * val) : N :=
   let '(lf, w) := lw in
   if vr_comments vr then 6%N
   else if has_null_enum w then 7%N
+  else if veq w (lf_def lf) && negb (leaf_stable_b lf w) then 8%N
   else if vr_skip_none vr && is_vnone w && negb (is_vnone (lf_def lf)) then 1%N
   else if negb (N.eqb (skipdef_class vr lf w) 0) then skipdef_class vr lf w
   else text_class vr lf w.
